@@ -32,10 +32,12 @@ CLAIMS["C14"] = dict(
          "then [compile_pragmas], then next_token once per token of the parser's stream for that file in order (pragma token removed first), "
          "then next_line(k+1, line k, is_last) for every line in order, then completed_file(n+1), then report; each PluginManager dispatcher "
          "delivers its event to every rule of the corresponding dispatch list exactly once, in list order, with the same context/token/line "
-         "(scan mode; loop invariants, no bound).",
-    note=TB + "Fix mode (context_map given): only exception wrapping and frames are proved, not the per-rule event sequence. Construction of "
-              "the dispatch lists (apply_configuration) is not under contract at this commit. The per-rule projection of the two trace levels "
-              "is composed on paper (DESIGN.md 5/C14).")
+         "(scan mode; loop invariants, no bound); apply_configuration builds the four dispatch lists as exactly the selected rules whose "
+         "class implements the callback, each once, after configuring and initialising every selected rule exactly once "
+         "(__apply_configuration; witnesses kept in ghost index lists).",
+    note=TB + "Fix mode (context_map given): only exception wrapping and frames are proved, not the per-rule event sequence. That "
+              "set_configuration_map derives the four is_*_implemented flags from the class dictionary is an assumed contract (class "
+              "introspection). The per-rule projection of the two trace levels is composed on paper (DESIGN.md 5/C14).")
 CLAIMS["C07"] = dict(
     text="Proof of the engine half: whatever a rule callback raises, only BadPluginError leaves the four dispatchers (all loop positions); "
          "PluginScanFailure.__lt__ is the lexicographic (line, column, rule id) order; report_on_triggered_rules hands every collected failure "
@@ -82,7 +84,8 @@ CLAIMS["C19"] = dict(
 CLAIMS["C17"] = dict(
     text="Proof of the precedence chain: __handle_command_line_settings returns False if '*' or any identifier of the rule is in the disable "
          "set, else True if any identifier is in the enable set, else None (disable wins; id and every alias are equivalent) - loop invariants; "
-         "__find_configuration_for_plugin returns the section of the first identifier that has any key; __determine_if_plugin_enabled = command "
+         "__find_configuration_for_plugin returns the section of the first identifier that has any key and __apply_configuration hands exactly "
+         "that section (else the section of the rule's id) to the rule; __determine_if_plugin_enabled = command "
          "line, else the section's boolean 'enabled', else the rule's default; configuration layers are loaded in the order pyproject < default "
          "file < --config < --set, each with clear_property_map=False (ghost trace of loader calls, all 153 paths); return-code scheme: argument, "
          "then validated configuration value, then default; for all 46 rules the identifiers, every configuration item's name, type and "
